@@ -241,5 +241,27 @@ fn k_excel_records() {
     kani::cover!(true, "reachable");
 }
 ''')
+out.append('''
+//@unit props=C05 label=B tier=quick native=1 fn=exd::EXD::calculate_filename bound="exhaustive by execution: 8 languages x start ids {0, 1, 500, 10000, u32::MAX} x 3 sheet names"
+//@desc data pages are named <sheet>_<start id>.exd for language-neutral sheets and <sheet>_<start id>_<language code>.exd otherwise (ja, en, de, fr, chs, cht, ko)
+#[test]
+fn native_exd_filenames() {
+    let langs = [(Language::None, ""), (Language::Japanese, "ja"), (Language::English, "en"), (Language::German, "de"), (Language::French, "fr"),
+                 (Language::ChineseSimplified, "chs"), (Language::ChineseTraditional, "cht"), (Language::Korean, "ko")];
+    let mut cases = 0u64;
+    for (l, code) in langs.iter() {
+        for start in [0u32, 1, 500, 10000, u32::MAX] {
+            for name in ["Item", "quest/000/ClsArc000_00021", "a"] {
+                let page = ExcelDataPagination { start_id: start, row_count: 1 };
+                let got = EXD::calculate_filename(name, *l, &page);
+                let want = if code.is_empty() { format!("{name}_{start}.exd") } else { format!("{name}_{start}_{code}.exd") };
+                assert_eq!(got, want, "page file name");
+                cases += 1;
+            }
+        }
+    }
+    println!("NATIVE native_exd_filenames cases={cases}");
+}
+''')
 open(os.path.join(os.path.dirname(os.path.abspath(__file__)), "..", "kani", "exd.rs"), "w").write("".join(out))
 print("ok")
